@@ -944,4 +944,146 @@ example : headerRows exDB.dict (.many ["E", "No Such Output", "E"]) =
       · exact Or.inr (Or.inl h)
       · exact Or.inl h) (by decide) (by decide)).1
 
+/-! ### Round 5: the unit universe (which units the one unit-dependent rule acts on)
+
+The statement has ONE unit-dependent rule: joules are converted to kWh, everything else is untouched.  The
+class of change closed here is a test on the unit that is wider or narrower than "the database unit is exactly
+`J`" (prefix, substring, suffix, other case, blanks, "any energy unit") at one of the sites that decide by the
+unit: the label of the header, the data type, the per-column conversion flag of the all-periods query and the
+single test of the run-period query. -/
+
+/-- `relabel` changes exactly one unit: `J`. -/
+theorem C19_relabel_iff (u : String) : (relabel u ≠ u ↔ u = "J") ∧ (u ≠ "J" → relabel u = u) := by
+  unfold relabel
+  refine ⟨⟨?_, ?_⟩, ?_⟩
+  · intro h
+    by_cases hu : u = "J"
+    · exact hu
+    · rw [if_neg hu] at h; exact absurd rfl h
+  · intro hu
+    rw [if_pos hu, hu]
+    decide
+  · intro hu
+    rw [if_neg hu]
+
+/-- Every database unit other than `J` (and the empty unit, announced as `fraction`) is the unit of the header,
+    letter for letter: compound joule units (`J/kg`, `J/kg-K`, `J/m3-K`), joule multiples, kWh-based units,
+    units ladybug does not know, other case, blanks - all untouched. -/
+theorem C19_label_untouched (u name : String) (h1 : u ≠ "J") (h0 : u ≠ "") :
+    (dataTypeFromUnit (relabel u) name).2 = u := by
+  rw [(C19_relabel_iff u).2 h1]
+  unfold dataTypeFromUnit
+  rw [if_neg h0]
+  split <;> rfl
+
+/-- The data type of every output other than `J` follows from the DATABASE unit alone. -/
+theorem C19_dtype_by_database_unit (u name : String) (h1 : u ≠ "J") :
+    dataTypeFromUnit (relabel u) name = dataTypeFromUnit u name := by
+  rw [(C19_relabel_iff u).2 h1]
+
+/-- The conversion flag of a column is set exactly when its database unit is `J` (or - outside the stated
+    assumptions, EnergyPlus reports energy in J - already `kWh`): an iff, so no wider and no narrower class. -/
+theorem C19_converted_iff (r : DictRow) :
+    ((typeUnitOf r).2 == "kWh") = true ↔ (r.units = "J" ∨ r.units = "kWh") := by
+  constructor
+  · intro h
+    by_cases h1 : r.units = "J"
+    · exact Or.inl h1
+    · by_cases h2 : r.units = "kWh"
+      · exact Or.inr h2
+      · have := (C19_flag_by_own_unit r).2 h1 h2
+        rw [this] at h
+        exact absurd h (by decide)
+  · rintro (h | h)
+    · rw [(C19_flag_by_own_unit r).1 h]
+      decide
+    · have hr : relabel "kWh" = relabel "J" := by decide +kernel
+      unfold typeUnitOf
+      rw [h, hr, C19_kwh_label]
+      decide
+
+/-- The joule / kWh family of the unit table keeps label and gets the base type of its own table row
+    (kernel-evaluated over the listed units; `C19_label_untouched` is the general statement). -/
+theorem C19_joule_family_untouched :
+    (["J/kg", "J/kg-K", "J/m3-K", "kJ", "MJ", "GJ", "Wh", "kWh/m2", "kWh/kg", "J/m2", "j", "J "].map fun u =>
+      (dataTypeFromUnit (relabel u) "n", (dataTypeFromUnit (relabel u) "n").2 == "kWh")) =
+    [((.base "SpecificEnergy", "J/kg"), false), ((.base "SpecificHeatCapacity", "J/kg-K"), false),
+     ((.base "VolumetricHeatCapacity", "J/m3-K"), false), ((.base "Energy", "kJ"), false),
+     ((.base "Energy", "MJ"), false), ((.base "Energy", "GJ"), false), ((.base "Energy", "Wh"), false),
+     ((.base "EnergyIntensity", "kWh/m2"), false), ((.base "SpecificEnergy", "kWh/kg"), false),
+     ((.generic "n", "J/m2"), false), ((.generic "n", "j"), false), ((.generic "n", "J "), false)] := by
+  decide +kernel
+
+/-- **The prefix class.**  No unit that merely STARTS with `J` - `J/kg`, `J/kg-K`, `J/m3-K`, `J/m2`, `J ` and any
+    other `"J" ++ s` with `s` non-empty - is relabelled or converted: the header unit is the database unit and the
+    conversion flag stays off, for every such text (not only the units of the table). -/
+theorem C19_joule_prefix_untouched (s name : String) (hs : s ≠ "") :
+    (dataTypeFromUnit (relabel ("J" ++ s)) name).2 = "J" ++ s ∧
+    ((dataTypeFromUnit (relabel ("J" ++ s)) name).2 == "kWh") = false := by
+  have hl : ("J" ++ s).length = 1 + s.length := by rw [String.length_append]; rfl
+  have hpos : 0 < s.length := by
+    rcases Nat.eq_zero_or_pos s.length with h | h
+    · exact absurd (String.length_eq_zero_iff.mp h) hs
+    · exact h
+  have h1 : "J" ++ s ≠ "J" := by
+    intro h
+    have := congrArg String.length h
+    rw [hl] at this
+    have h2 : ("J" : String).length = 1 := by decide
+    omega
+  have h0 : "J" ++ s ≠ "" := by
+    intro h
+    have := congrArg String.length h
+    rw [hl] at this
+    have h2 : ("" : String).length = 0 := by decide
+    omega
+  have hk : "J" ++ s ≠ "kWh" := by
+    intro h
+    have := congrArg (fun x => x.toList.head?) h
+    simp at this
+  have hlab := C19_label_untouched ("J" ++ s) name h1 h0
+  refine ⟨hlab, ?_⟩
+  rw [hlab]
+  simpa using hk
+
+/-- **The sites agree.**  For the rows of ONE output name (same name, same unit - what the run-period query is
+    asked for) the all-periods query, which decides per row, builds the headers the run-period query builds
+    from its first row, and its per-column conversion flags are the run-period query's single test repeated:
+    the two methods cannot label or convert a unit differently. -/
+theorem C19_unit_sites_agree (hdr : List DictRow) (h0 : DictRow) (surface : Bool) (p : Period)
+    (h : ∀ r ∈ hdr, r.units = h0.units ∧ r.name = h0.name) :
+    hdrOf hdr surface p = hdr.map (fun r => ⟨p, (typeUnitOf h0).1, (typeUnitOf h0).2, metaOf surface r⟩) ∧
+    kwhFlags hdr 1 = List.replicate hdr.length ((typeUnitOf h0).2 == "kWh") := by
+  have ht : ∀ r ∈ hdr, typeUnitOf r = typeUnitOf h0 := by
+    intro r hr
+    unfold typeUnitOf
+    rw [(h r hr).1, (h r hr).2]
+  constructor
+  · unfold hdrOf
+    apply List.map_congr_left
+    intro r hr
+    rw [ht r hr]
+  · unfold kwhFlags
+    simp only [List.replicate_one, List.flatten_cons, List.flatten_nil, List.append_nil]
+    rw [List.eq_replicate_iff]
+    refine ⟨by simp, ?_⟩
+    intro b hb
+    simp only [List.mem_map] at hb
+    obtain ⟨r, hr, rfl⟩ := hb
+    rw [ht r hr]
+
+/-- Sample (kernel-evaluated test): a `J/kg` output with a design day and a run period, read for one run
+    period: unit, data type and values are the database's, and equal the slice of the all-periods answer. -/
+example :
+    let db : DB Nat := ⟨[⟨5, "System", "N1", "H", "Daily", "J/kg"⟩, ⟨6, "System", "N2", "H", "Daily", "J/kg"⟩],
+      [⟨1, 0, 7, 21, 1440, 2, 1⟩, ⟨2, 2017, 1, 5, 1440, 2, 2⟩],
+      [⟨1, 5, 7200000⟩, ⟨1, 6, 3600000⟩, ⟨2, 5, 11⟩, ⟨2, 6, 12⟩]⟩
+    ((match queryRunPeriod (· / 3600000) db "H" 2 with
+      | .ok (.colls cs) => cs.map fun c => (c.key, c.unit, c.dtype, c.values)
+      | _ => []) = [("N1", "J/kg", .base "SpecificEnergy", [11]), ("N2", "J/kg", .base "SpecificEnergy", [12])]) ∧
+    ((match queryAll (· / 3600000) db (.single "H") with
+      | .ok (.colls al) => (al.drop 2).map fun c => (c.key, c.unit, c.dtype, c.values)
+      | _ => []) = [("N1", "J/kg", .base "SpecificEnergy", [11]), ("N2", "J/kg", .base "SpecificEnergy", [12])]) := by
+  decide +kernel
+
 end Sql
